@@ -51,7 +51,8 @@ SUITE = good_suite()
 
 
 def reports(obs):
-    return [(e[1], e[2]) for e in obs if e[0] == 'cb' and e[1] not in ('on_connection_lost',)]
+    # (on_connection_lost / on_established tell the application about the session, not about a message)
+    return [(e[1], e[2]) for e in obs if e[0] == 'cb' and e[1] not in ('on_connection_lost', 'on_established')]
 
 
 _pristine = {}
@@ -238,6 +239,14 @@ def run(tier, seed):
         for i in range(0, len(sub), 300):
             # recovery continuation on a rotating tenth (all of them in thorough) - it is 20x the cost of the delivery
             tasks.append((state, sub[i:i + 300], tier == 'thorough' or (i // 300) % 10 == seed % 10))
+    # every message of the session alphabet (OPENs with hold time 1 / 2 / 0, other AS, other version, bad identifier, NOTIFICATIONs,
+    # header errors ...) in every state, each followed by the recovery continuation: what a refused message leaves behind shows in the
+    # NEXT session (its OPEN must be that of a freshly booted agent)
+    from ..alphabet import session_messages
+    named = [('alphabet:' + k, f) for k, f in sorted(session_messages(full=True, holds=(90, 3)).items()) if not k.startswith('@') and isinstance(f, bytes)]
+    for state in STATES:
+        for i in range(0, len(named), 12):
+            tasks.append((state, named[i:i + 12], True))
     res = explore.pmap(task, tasks, chunk=1)
     explore.close_pool()
     total = 0
